@@ -526,7 +526,7 @@ def run_routes(ctx, exe, prog, routes, tp):
         d = ctx.tmp / f"scr{ctx._scr}"
         (d / "root").mkdir(parents=True)      # a private parent: symlink targets like ../x stay inside this run's directory
         rc, out, err = ctx.run(exe, [r, d / "root"], text=text, timeout=120,
-                               env={"UV_USE_IO_URING": "1", "UV_THREADPOOL_SIZE": str(tp)})
+                               env={"UV_USE_IO_URING": "1", "UV_THREADPOOL_SIZE": str(tp), "C11_NOSTATX": str(getattr(ctx, "_nostatx", 0))})
         shutil.rmtree(d, ignore_errors=True)
         res[r] = (rc, out.splitlines(), err)
     return res
@@ -600,11 +600,28 @@ def shrink_prog(ctx, exe, prog, sig, odd, ref, tp):
     return cur
 
 
-def run_route_case(ctx, exe, prog, tp, stats):
-    """run one program on all routes; known findings are reported, their op removed, and the rest re-run"""
+def run_route_case(ctx, exe, prog, tp, stats, nostatx=0):
+    """run one program on all routes; known findings are reported, their op removed, and the rest re-run.
+    nostatx = errno that every statx(2) of the harness process answers (seccomp filter; 0 = statx available): the stat
+    family then runs its stat(2)/lstat(2)/fstat(2) fallback; the io_uring route never issues statx(2) and is left out"""
+    ctx._nostatx = nostatx
+    try:
+        return _run_route_case(ctx, exe, prog, tp, stats, nostatx)
+    finally:
+        ctx._nostatx = 0
+
+
+def _run_route_case(ctx, exe, prog, tp, stats, nostatx):
     for _ in range(12):
-        res = run_routes(ctx, exe, prog, ROUTES, tp)
+        res = run_routes(ctx, exe, prog, [r for r in ROUTES if not (nostatx and r == "uring")], tp)
         ctx.count()
+        if any(v[1][:1] == ["ROUTE-SKIPPED nostatx"] for v in res.values()):
+            ctx.notes["nostatx_configuration"] = "SKIPPED: this sandbox refuses a seccomp filter"
+            return True
+        if nostatx:
+            res["uring"] = (0, ["ROUTE-SKIPPED uring"], "")
+            stats["nostatx_programs"] = stats.get("nostatx_programs", 0) + 1
+            stats["nostatx_stat_calls"] = stats.get("nostatx_stat_calls", 0) + sum(1 for p in prog if p.split()[0] in ("stat", "lstat", "fstat"))
         if res["uring"][1][:1] == ["ROUTE-SKIPPED uring"]:
             stats["uring_skipped"] += 1
         for r in ("pool", "uring"):
@@ -625,11 +642,14 @@ def run_route_case(ctx, exe, prog, tp, stats):
                 ctx.nontrivial("P" + hashlib.sha1("\n".join(log).encode()).hexdigest()[:12])
             return True
         sig, msg, odd, ref = j
-        if sig in ctx.known:
+        if sig + ("-nostatx" if nostatx else "") in ctx.known:
             small = prog
         else:
             small = shrink_prog(ctx, exe, prog, sig, odd, ref, tp)
-        if ctx.violation(sig, f"C11 routes: {msg}", {"mode": "routes", "prog": small, "threadpool": tp}):
+        if nostatx:
+            sig += "-nostatx"
+            msg += f" [configuration: statx(2) answers errno {nostatx}, so uv__fs_stat/lstat/fstat use their stat(2)/lstat(2)/fstat(2) fallback]"
+        if ctx.violation(sig, f"C11 routes: {msg}", {"mode": "routes", "prog": small, "threadpool": tp, "nostatx": nostatx}):
             return False
         # known finding: drop the op where the logs first part and validate the rest of the program
         a, b = res[odd][1], res[ref][1] if ref else []
@@ -648,6 +668,16 @@ CORPUS_ROUTES = [
 ]
 
 
+# statx-unavailable configuration: {stat, lstat, fstat} x {regular file, directory, link to file, link to directory, dangling link,
+# missing path, path through a file} on sync / thread pool / raw POSIX, every field against fstatat(2)
+NOSTATX_PROG = ["mkdir d0 755", "open 0 d0/f0 rwc 640", "write 0 -1 7 11", "open 1 d0 rd 0", "symlink d0/f0 lf", "symlink d0 ld",
+                "symlink gone dl", "symlink lf ll", "chmod d0/f0 4750"] + \
+               [f"{k} {t}" for t in ("d0/f0", "d0", "lf", "ld", "dl", "ll", "nope", "d0/f0/x", "ld/f0", ".") for k in ("stat", "lstat")] + \
+               ["fstat 0", "fstat 1", "fstat 5", "close 0", "fstat 0", "scandir .", "readlink lf", "realpath ld", "access dl 0", "copyfile lf c0 0",
+                "lstat c0", "stat c0"]
+NOSTATX_ERRNOS = [38, 1, 22, 95]          # ENOSYS EPERM EINVAL EOPNOTSUPP: the four answers uv__fs_statx treats as "no statx"
+
+
 def load_corpus():
     """corpus/C11/*.fsbuf (first line `iovmax N`) and *.prog (route programs) run first, every time"""
     unit, progs = [], []
@@ -658,6 +688,243 @@ def load_corpus():
     for f in sorted(d.glob("*.prog")):
         progs.append([l for l in f.read_text().splitlines() if l.strip()])
     return unit, progs
+
+
+# ============================================================================ (d) request life cycle vs UvModel.FsReq
+# variant name (harness/c11_reqlife.c issue()) -> (model op, path, new_path, nbufs, argsok, kernel answer)
+REQ_VARIANTS = {
+    "open-ok": ("open", "f", "", 0, 1, "ok1000"), "open-enoent": ("open", "nope", "", 0, 1, "E2"),
+    "close-ebadf": ("close", "", "", 0, 1, "E9"),
+    "read-1": ("read", "", "", 1, 1, "ok1"), "read-6": ("read", "", "", 6, 1, "ok6"), "read-6-ebadf": ("read", "", "", 6, 1, "E9"),
+    "read-nbufs0": ("read", "", "", 0, 0, "E22"),
+    "write-1": ("write", "", "", 1, 1, "ok1"), "write-6": ("write", "", "", 6, 1, "ok6"), "write-6-ebadf": ("write", "", "", 6, 1, "E9"),
+    "write-null": ("write", "", "", 3, 0, "E22"),
+    "stat-ok": ("stat", "f", "", 0, 1, "ok0"), "stat-enoent": ("stat", "nope", "", 0, 1, "E2"),
+    "lstat-ok": ("lstat", "l", "", 0, 1, "ok0"), "lstat-enoent": ("lstat", "nope", "", 0, 1, "E2"),
+    "fstat-ok": ("fstat", "", "", 0, 1, "ok0"), "fstat-ebadf": ("fstat", "", "", 0, 1, "E9"),
+    "statfs-ok": ("statfs", ".", "", 0, 1, "ok0"), "statfs-enoent": ("statfs", "nope", "", 0, 1, "E2"),
+    "mkdir-ok": ("mkdir", "m", "", 0, 1, "ok0"), "mkdir-eexist": ("mkdir", "d", "", 0, 1, "E17"),
+    "rmdir-enoent": ("rmdir", "nope", "", 0, 1, "E2"), "unlink-enoent": ("unlink", "nope", "", 0, 1, "E2"),
+    "unlink-eisdir": ("unlink", "d", "", 0, 1, "E21"),
+    "rename-ok": ("rename", "f", "f.ren", 0, 1, "ok0"), "rename-enoent": ("rename", "nope", "x", 0, 1, "E2"),
+    "link-ok": ("link", "f", "hl", 0, 1, "ok0"), "link-eexist": ("link", "f", "d", 0, 1, "E17"),
+    "symlink-ok": ("symlink", "f", "sl", 0, 1, "ok0"), "symlink-eexist": ("symlink", "f", "l", 0, 1, "E17"),
+    "readlink-ok": ("readlink", "l", "", 0, 1, "ok0"), "readlink-einval": ("readlink", "f", "", 0, 1, "E22"),
+    "realpath-ok": ("realpath", "l", "", 0, 1, "ok0"), "realpath-enoent": ("realpath", "nope", "", 0, 1, "E2"),
+    "access-ok": ("access", "f", "", 0, 1, "ok0"), "access-enoent": ("access", "nope", "", 0, 1, "E2"),
+    "chmod-enoent": ("chmod", "nope", "", 0, 1, "E2"), "fchmod-ok": ("fchmod", "", "", 0, 1, "ok0"),
+    "utime-ok": ("utime", "f", "", 0, 1, "ok0"), "futime-ebadf": ("futime", "", "", 0, 1, "E9"), "lutime-ok": ("lutime", "l", "", 0, 1, "ok0"),
+    "mkdtemp-ok": ("mkdtemp", "tXXXXXX", "", 0, 1, "ok0"), "mkdtemp-enoent": ("mkdtemp", "nope/tXXXXXX", "", 0, 1, "E2"),
+    "mkstemp-ok": ("mkstemp", "sXXXXXX", "", 0, 1, "ok1000"), "mkstemp-einval": ("mkstemp", "sXX", "", 0, 1, "E22"),
+    "copyfile-ok": ("copyfile", "f", "cp", 0, 1, "ok0"), "copyfile-enoent": ("copyfile", "nope", "cp", 0, 1, "E2"),
+    "copyfile-badflags": ("copyfile", "f", "cp", 0, 0, "E22"),
+    "sendfile-ebadf": ("sendfile", "", "", 0, 1, "E9"), "ftruncate-ok": ("ftruncate", "", "", 0, 1, "ok0"),
+    "fsync-ok": ("fsync", "", "", 0, 1, "ok0"), "fdatasync-ebadf": ("fdatasync", "", "", 0, 1, "E9"), "fdatasync-ok": ("fdatasync", "", "", 0, 1, "ok0"),
+    "scandir-d": ("scandir", "d", "", 0, 1, "ok3"), "scandir-e": ("scandir", "e", "", 0, 1, "ok0"),
+    "scandir-nope": ("scandir", "nope", "", 0, 1, "E2"), "scandir-f": ("scandir", "f", "", 0, 1, "E20"),
+    "opendir-d": ("opendir", "d", "", 0, 1, "ok0"), "opendir-nope": ("opendir", "nope", "", 0, 1, "E2"),
+    "readdir-1": ("readdir", "", "", 0, 1, "ok1"), "readdir-4": ("readdir", "", "", 0, 1, "ok3"), "readdir-null": ("readdir", "", "", 0, 0, "E22"),
+    "readdir-ebadf": ("readdir", "", "", 0, 1, "E9"),
+    "closedir-ok": ("closedir", "", "", 0, 1, "ok0"), "closedir-null": ("closedir", "", "", 0, 0, "E22"),
+    "chown-enoent": ("chown", "nope", "", 0, 1, "E2"), "fchown-ebadf": ("fchown", "", "", 0, 1, "E9"), "lchown-enoent": ("lchown", "nope", "", 0, 1, "E2"),
+}
+REQ_SUBMITTERS = {"close", "fsync", "fdatasync", "ftruncate", "link", "mkdir", "symlink", "rename", "unlink", "open", "read", "write",
+                  "stat", "fstat", "lstat"}
+REQ_PATH1 = {"access", "chmod", "chown", "lchown", "lutime", "lstat", "mkdir", "open", "scandir", "opendir", "readlink", "realpath", "rmdir",
+             "stat", "statfs", "unlink", "utime"}
+REQ_PATH2 = {"link", "rename", "symlink", "copyfile"}
+# completions that may be rewritten to -EOPNOTSUPP and re-run in the pool: the kernel already ran the op once, so only idempotent ones
+REQ_IDEMPOTENT = {"stat-ok", "stat-enoent", "lstat-ok", "lstat-enoent", "fstat-ok", "fstat-ebadf", "read-1", "read-6", "read-6-ebadf",
+                  "write-6-ebadf", "fsync-ok", "fdatasync-ok", "fdatasync-ebadf", "ftruncate-ok", "close-ebadf", "open-enoent",
+                  "mkdir-eexist", "unlink-enoent", "unlink-eisdir", "rename-enoent", "link-eexist", "symlink-eexist"}
+REQ_OWNED = ("path", "path2", "bufs", "statx", "res", "dents", "dent", "name")
+
+
+def kernel_version():
+    m = re.match(r"(\d+)\.(\d+)(?:\.(\d+))?", os.uname().release)
+    return int(m.group(1)) * 65536 + int(m.group(2)) * 256 + min(int(m.group(3) or 0), 255)
+
+
+def req_oom_effective(op, cb, nbufs):
+    """does the front end allocate at all (then oom=1 makes its first allocation fail)"""
+    if op in ("mkdtemp", "mkstemp"):
+        return True
+    if op in REQ_PATH1 or op in REQ_PATH2:
+        return bool(cb)
+    if op == "read":
+        return bool(cb) and nbufs > 4
+    if op == "write":
+        return nbufs > 4
+    return False
+
+
+def req_cases(full, rng):
+    """(variant, cb, ring, cancel, fallback, oom, nexts, cleanups); exhaustive in variant x cb x ring x cancel x fallback x oom;
+    `cleanups` in 0..2 and the number of scandir_next calls are exhaustive in the thorough tier, drawn per case otherwise"""
+    out = []
+    for v, (op, path, npath, nbufs, argsok, ans) in REQ_VARIANTS.items():
+        for cb in (0, 1):
+            for ring in ((0, 1) if cb else (0,)):
+                for cancel in ((0, 1) if cb else (0,)):
+                    fbs = (0, 1) if (ring and op in REQ_SUBMITTERS and v in REQ_IDEMPOTENT) else (0,)
+                    for fb in fbs:
+                        for oom in ((0, 1) if req_oom_effective(op, cb, nbufs) and not (cancel or fb) else (0,)):
+                            nx = list(range(0, 6)) if op == "scandir" and not oom else [0]
+                            cl = [0, 1, 2]
+                            if not full:
+                                nx = sorted(set([rng.choice(nx), rng.choice(nx)]))
+                                cl = sorted(set([rng.choice([1, 2]), rng.choice(cl)]))
+                            for n in nx:
+                                for c in cl:
+                                    out.append((v, cb, ring, cancel, fb, oom, n, c))
+    return out
+
+
+def req_model_input(case, kv):
+    v, cb, ring, cancel, fb, oom, nexts, cleanups = case
+    op, path, npath, nbufs, argsok, ans = REQ_VARIANTS[v]
+    lines = [f"case op={op} cb={cb} ring={ring} kernel={kv} nbufs={nbufs} argsok={argsok} oom={oom} plen={len(path)} nlen={len(npath)} outs={ans}"]
+    rejected = (not argsok) or (oom and req_oom_effective(op, cb, nbufs))
+    lines.append("submit")
+    if cb and not rejected:
+        if cancel:
+            lines.append("cancel")
+        if ring and op in REQ_SUBMITTERS:
+            res = int(ans[2:]) if ans.startswith("ok") else -int(ans[1:])
+            lines += ["cqe -95", f"work {ans}", "done"] if fb else [f"cqe {res}"]
+        else:
+            lines += ["done"] if cancel else [f"work {ans}", "done"]
+    if not rejected:
+        lines += ["next"] * nexts
+    lines += ["cleanup"] * cleanups
+    return lines
+
+
+def req_model_observable(lines):
+    """the model prints one line per event; the harness cannot look between uv__fs_work and uv__fs_done, and sees an io_uring
+    completion from inside the callback"""
+    out = []
+    for l in lines:
+        if l.startswith("work "):
+            continue
+        if l.startswith("cqe "):
+            if " cbs=0" in l:          # the -EOPNOTSUPP completion: re-posted, no callback yet
+                continue
+            l = "done" + l[3:]
+        out.append(l)
+    return out
+
+
+def req_monitor(case, obs):
+    """the property on the harness log alone: (sig, message) or None"""
+    v, cb, ring, cancel, fb, oom, nexts, cleanups = case
+    op, path, npath, nbufs, argsok, ans = REQ_VARIANTS[v]
+    def f(l, k):
+        m = re.search(rf" {k}=(\S+)", l)
+        return m.group(1) if m else None
+    ncl, first_cl, done_seen = 0, None, not cb
+    for l in obs:
+        ev = l.split()[0]
+        live = [] if f(l, "live") == "-" else f(l, "live").split(",")
+        if any(x.startswith("other[") for x in live):
+            return (f"reqlife-unreferenced-block-{op}", f"after `{ev}` a heap block allocated for the request is referenced by no request field: `{l}`")
+        if "dangling" in l:
+            return (f"reqlife-dangling-field-{op}", f"after `{ev}` a request field points at freed memory: `{l}`")
+        if ev == "done":
+            done_seen = True
+        if ev == "submit" and cb == 0 and (f(l, "active") != "0" or f(l, "route") not in ("sync", "rejected")):
+            return (f"reqlife-sync-registers-{op}", f"a request without callback must run inline and never be counted in the loop: `{l}`")
+        if ev in ("done", "next", "cleanup") and f(l, "route") != "rejected":
+            if f(l, "active") != "0":
+                return (f"reqlife-active-after-done-{op}", f"request still counted in loop->active_reqs after completion: `{l}`")
+            if f(l, "cbs") != ("1" if cb and done_seen else "0"):
+                return (f"reqlife-cb-count-{op}", f"callback count after completion must be {1 if cb else 0}: `{l}`")
+            r = int(f(l, "result"))
+            if r > 0 and ans.startswith("E") or r < -4095:
+                return (f"reqlife-result-not-normalised-{op}", f"req->result must be >= 0 or a negated errno (kernel answer {ans}): `{l}`")
+        if ev in ("submit", "cancel", "done", "next") and cb and f(l, "route") != "rejected" and (op in REQ_PATH1 or op in REQ_PATH2) \
+                and not (ev == "submit" and f(l, "ret") != "0"):
+            if f(l, "path") != "heap" or not any(x.startswith("path") for x in live):
+                return (f"reqlife-path-lifetime-{op}", f"the path copy of an asynchronous request must stay valid until uv_fs_req_cleanup: `{l}`")
+        if cb == 0 and op in REQ_PATH1 | REQ_PATH2 and any(x.startswith("path") for x in live):
+            return (f"reqlife-sync-path-copied-{op}", f"a synchronous request borrows the caller's path: `{l}`")
+        if ev == "cleanup":
+            ncl += 1
+            owned = [x for x in live if x.split("[")[0] in REQ_OWNED]
+            if owned:
+                return (f"cleanup-residue-{op}", f"ledger not empty after uv_fs_req_cleanup ({v}, cb={cb} ring={ring} cancel={cancel} "
+                                                 f"fallback={fb} nexts={nexts}): still live {owned}: `{l}`")
+            if f(l, "path") != "null" or f(l, "bufs") != "null" or f(l, "ptr") != "null" or f(l, "newpath") != "0":
+                return (f"cleanup-fields-not-null-{op}", f"uv_fs_req_cleanup must leave path/new_path/bufs/ptr NULL: `{l}`")
+            if first_cl is None:
+                first_cl = l
+            elif l != first_cl:
+                return (f"cleanup-not-idempotent-{op}", f"second uv_fs_req_cleanup changed the state: `{first_cl}` then `{l}`")
+    return None
+
+
+def run_reqlife(ctx, exe, cases, monitors_only=False):
+    """returns False when a violation stops the run"""
+    kv = kernel_version()
+    d = ctx.tmp / f"rl{len(cases)}_{int(monitors_only)}"; d.mkdir(exist_ok=True)
+    text = "".join(f"case {c[0]} cb={c[1]} ring={c[2]} cancel={c[3]} fallback={c[4]} oom={c[5]} nexts={c[6]} cleanups={c[7]}\n" for c in cases)
+    rc, out, err = ctx.run(exe, [d], text=text, env={"UV_USE_IO_URING": "1", "UV_THREADPOOL_SIZE": "1"}, timeout=300)
+    shutil.rmtree(d, ignore_errors=True)
+    ls = out.splitlines()
+    groups, cur = [], None
+    for l in ls[1:]:
+        if l.startswith("case "):
+            cur = []
+        elif l.startswith("end"):
+            if cur is not None:
+                groups.append((cur, l)); cur = None
+        elif cur is not None:
+            cur.append(l)
+    no_ring = ls[:1] == ["start ring=0"]
+    if no_ring:
+        ctx.notes["reqlife_uring"] = "skipped: no SQPOLL ring"
+    if rc != 0 or len(groups) != len(cases) or ls[-1:] != ["bye"]:
+        k = len(groups)
+        at = cases[k] if k < len(cases) else None
+        what = "did not finish (request never completed / loop never returned)" if rc == -999 else f"exited {rc}"
+        ctx.violation(f"reqlife-crash-{REQ_VARIANTS[at[0]][0] if at else 'exit'}",
+                      f"C11 request life cycle: harness {what} in case {at}: {err[-700:]}", {"mode": "reqlife", "cases": [list(at)] if at else []})
+        return False
+    model = None
+    if not monitors_only:
+        mtext = "\n".join("\n".join(req_model_input(c, kv)) for c in cases) + "\n"
+        mlines = ctx.driver(["fsreq"], mtext).splitlines()
+        model, i = [], 0
+        for c in cases:
+            n = len(req_model_input(c, kv)) - 1
+            model.append(req_model_observable(mlines[i:i + n])); i += n
+    st = ctx.notes.setdefault("reqlife", {"cases": 0, "cancelled": 0, "uring": 0, "fallback": 0, "rejected": 0, "events": 0})
+    for j, c in enumerate(cases):
+        obs, endl = groups[j]
+        ctx.count()
+        if obs == ["skipped-no-ring"]:
+            continue
+        st["cases"] += 1; st["events"] += len(obs)
+        st["cancelled"] += any(l.startswith("cancel ret=0") for l in obs); st["uring"] += "route=uring" in obs[0]
+        st["fallback"] += c[4]; st["rejected"] += "route=rejected" in obs[0]
+        bad = req_monitor(c, obs)
+        if not bad and "overflow" in endl:
+            bad = ("reqlife-live-table-overflow", "more than 8192 live blocks in one request")
+        if bad:
+            if ctx.violation(bad[0], f"C11 request life cycle: {bad[1]}", {"mode": "reqlife", "cases": [list(c)]}):
+                return False
+            continue
+        if monitors_only:
+            continue
+        if obs != model[j]:
+            k = next((x for x in range(min(len(obs), len(model[j]))) if obs[x] != model[j][x]), min(len(obs), len(model[j])))
+            ctx.broken_correspondence("FsReq model vs request life cycle of src/unix/fs.c",
+                                      f"case {c}: event {k}: impl `{(obs + [None])[k]}` model `{(model[j] + [None])[k]}`")
+            ctx.notes.setdefault("differing_op", REQ_VARIANTS[c[0]][0])
+            return False
+        ctx.validated()
+        ctx.nontrivial("L" + hashlib.sha1("\n".join(obs).encode()).hexdigest()[:12])
+    return True
 
 
 # ============================================================================ run
@@ -671,7 +938,11 @@ def run(ctx):
     ctx.notes["validation_by_correspondence"] = ("part (c) — same outcome on sync / thread pool / io_uring and equal to POSIX — is differential "
                                                  "testing of generated op programs on four routes, NOT a theorem about the kernel; counted in "
                                                  "traces_validated_against_impl")
-    proofs_ok = ctx.require_lean(["UvModel.Props.C11"])
+    ctx.trusted += ["tools/gen_lean.py (clang AST -> Lean for the loop-free kernels fs_write_route, fs_read_route, fs_work_result) and UvModel/CSem.lean"]
+    # Tie A: uv__fs_write / uv__fs_read / the result normalisation of uv__fs_work regenerated from /repo,
+    # GenEq/C11 re-proves them = FsBuf.writeSys / readSys (on the iovmax-clamped count) / mapResult
+    gen_ok = ctx.gen_lean(need=["C11"])
+    proofs_ok = ctx.require_lean(["UvModel.GenEq.C11", "UvModel.Props.C11", "UvModel.Props.C11Req"]) and gen_ok
     uexe = ctx.harness("c11_fsbuf", ["harness/c11_fsbuf.c"], link_lib=True)
     rexe = ctx.harness("c11_routes", ["harness/c11_routes.c"], link_lib=True)
     stats = {"uring_skipped": 0, "pool_via_uring": 0, "pool_via_pool": 0, "uring_via_uring": 0, "uring_via_pool": 0,
@@ -681,7 +952,11 @@ def run(ctx):
         if rp["mode"] == "fsbuf" and uexe:
             run_unit(ctx, uexe, [(rp["iovmax"], rp["lines"])], "replay")
         elif rp["mode"] == "routes" and rexe:
-            run_route_case(ctx, rexe, rp["prog"], rp.get("threadpool", 4), stats)
+            run_route_case(ctx, rexe, rp["prog"], rp.get("threadpool", 4), stats, rp.get("nostatx", 0))
+        elif rp["mode"] == "reqlife":
+            lexe = ctx.harness("c11_reqlife", ["harness/c11_reqlife.c"], link_lib=True)
+            if lexe:
+                run_reqlife(ctx, lexe, [tuple(c) for c in rp["cases"]])
         return
     rng = ctx.rng
     ok = True
@@ -709,6 +984,15 @@ def run(ctx):
                 ok = False
             if n == 4:
                 ctx.sample({"route_program": prog[:12]})
+        # the same differential with statx(2) unavailable (one process per configuration: libuv caches "no statx" in a static)
+        if ok:
+            en = NOSTATX_ERRNOS if ctx.tier != "quick" else [NOSTATX_ERRNOS[0], rng.choice(NOSTATX_ERRNOS[1:])]
+            for e in en:
+                ok = ok and run_route_case(ctx, rexe, NOSTATX_PROG, rng.choice([1, 4]), stats, nostatx=e)
+            for _ in range(ctx.scale(2, 40)):
+                if not ok:
+                    break
+                ok = run_route_case(ctx, rexe, gen_prog(rng, rng.range(12, 40)), rng.choice([1, 2, 4]), stats, nostatx=rng.choice(NOSTATX_ERRNOS))
         stats["kinds"] = sorted(stats["kinds"])
         ctx.notes["routes"] = dict(stats, programs=n)
         if stats["uring_skipped"]:
@@ -763,6 +1047,11 @@ def run(ctx):
         ctx.notes["cleanup_accounting"] = (f"{ncase} request states (46 kinds x success/failure, scandir after k of n next-calls incl. EOF, "
                                            "opendir/readdir/closedir abandoned after j batches, cancelled requests) with uv-allocator blocks, "
                                            "process heap bytes and descriptor count all back to the pre-request value")
+    # request life cycle against UvModel.FsReq: allocation ledger by role after every observable event (harness/c11_reqlife.c)
+    lexe = ctx.harness("c11_reqlife", ["harness/c11_reqlife.c"], link_lib=True)
+    if lexe and ok:
+        ok = run_reqlife(ctx, lexe, req_cases(ctx.tier == "thorough", rng))
+        ctx.sample({"reqlife_case": "case scandir-d cb=1 ring=0 cancel=0 fallback=0 oom=0 nexts=2 cleanups=2"})
     # forced -EOPNOTSUPP completion (fallback of uv__poll_io_uring to the thread pool): same lines as unforced, no leak
     fexe = ctx.harness("c11_fallback", ["harness/c11_fallback.c"], link_lib=True) if not ctx.replay else None
     if fexe:
@@ -808,6 +1097,10 @@ def run(ctx):
             if not run_unit(ctx, uexe, b, "search", monitors_only=True) or ctx.violations:
                 break
         ctx.notes["search"] = f"{nb} extra unit cases run against the monitors after an obligation broke"
+        if lexe and not ctx.violations:
+            allc = req_cases(True, srng)
+            run_reqlife(ctx, lexe, allc, monitors_only=True)
+            ctx.notes["search"] += f"; {len(allc)} request life cycles (full product) against the life-cycle monitors"
     ctx.cov["rule"] = ("unit: write_all/read/buf_offset/work lines — buffer counts 1..5 and IOV_MAX-1..2*IOV_MAX+3 (IOV_MAX 1024 and, via a "
                        "uv__getiovmax shim, 2..16), zero-length buffers and zero runs >= IOV_MAX in front/middle/end, kernel answers: all, 1 "
                        "byte, cut at a buffer boundary, cut inside a buffer, 0, EINTR runs, errors at any position, script exhaustion; "
